@@ -522,6 +522,52 @@ Proof.
   - intros x Hx. apply in_app_or in Hx. destruct Hx as [Hx|[<-|[]]]; [apply Hold; exact Hx | exact Hnew].
 Qed.
 
+(* a request is withdrawn: the local feature forgets the address, the account the records of the
+   connection the delete call went to - the same, since addresses identify connections *)
+Lemma drop_ref_nil sub e f r cr : drop_ref sub e f r [] cr = cr.
+Proof.
+  unfold drop_ref. apply filter_all. intros x _. unfold memN. cbn [existsb]. rewrite !andb_false_r. reflexivity.
+Qed.
+
+Lemma refs_drop_ref cr sub e f r q sub' e' f' :
+  (forall x, In x cr -> eqb_faddr (c_addr x) r = true -> c_ski x = q) ->
+  refs (drop_ref sub e f r [q] cr) sub' e' f' =
+  if eqb_eaddr e' e && N.eqb f' f && Bool.eqb sub' sub
+  then filter (fun a => negb (eqb_faddr a r)) (refs cr sub' e' f') else refs cr sub' e' f'.
+Proof.
+  intros Hq. unfold refs, drop_ref. rewrite filter_comm.
+  destruct (eqb_eaddr e' e && N.eqb f' f && Bool.eqb sub' sub) eqn:Ek.
+  - rewrite filter_map_comm. f_equal. rewrite !filter_filter. apply filter_ext_in. intros x Hx.
+    apply andb_true_iff in Ek. destruct Ek as [Ek E3]. apply andb_true_iff in Ek. destruct Ek as [E1 E2].
+    apply eqb_eaddr_eq in E1. apply N.eqb_eq in E2. apply eqb_prop in E3. subst e' f' sub'.
+    unfold key_of. destruct (eqb_eaddr (c_ent x) e && N.eqb (c_feat x) f && Bool.eqb (c_sub x) sub); cbn [andb negb]; [|reflexivity].
+    destruct (eqb_faddr (c_addr x) r) eqn:Er; cbn [andb negb]; [|reflexivity].
+    rewrite (Hq x Hx Er). unfold memN. cbn [existsb]. rewrite N.eqb_refl. reflexivity.
+  - f_equal. rewrite filter_filter. apply filter_ext_in. intros x Hx. unfold key_of.
+    destruct (eqb_eaddr (c_ent x) e' && N.eqb (c_feat x) f' && Bool.eqb (c_sub x) sub') eqn:Ex; [|reflexivity].
+    cbn [andb]. apply andb_true_iff in Ex. destruct Ex as [Ex E3]. apply andb_true_iff in Ex. destruct Ex as [E1 E2].
+    apply eqb_eaddr_eq in E1. apply N.eqb_eq in E2. apply eqb_prop in E3. rewrite E1, E2, E3, Ek. reflexivity.
+Qed.
+
+Lemma CInv_del_ref s s1 cr e f sub r q :
+  lfeats s1 = map (at_key e f (del_client_ref sub r)) (lfeats s) ->
+  (forall x, In x cr -> eqb_faddr (c_addr x) r = true -> c_ski x = q) ->
+  (forall x, In x cr -> exists pe d, find_peer s1 (c_ski x) = Some pe /\ p_addr pe = Some d /\ fa_dev (c_addr x) = Some d) ->
+  addr_ok s1 = true -> NoDup (skis s1) -> CInv s cr ->
+  CInv s1 (drop_ref sub e f r [q] cr).
+Proof.
+  intros Hl Hq Hold Hok Hnd C.
+  apply (CInv_map s s1 (at_key e f (del_client_ref sub r)) cr); try assumption.
+  - apply keeps_key_at. intros x. split; reflexivity.
+  - intros e' f' lf Hf A B. destruct (find_lfeat_key _ _ _ _ Hf) as [He Hi].
+    rewrite !(refs_drop_ref cr sub e f r q) by exact Hq. unfold at_key. rewrite He, Hi.
+    destruct (eqb_eaddr e' e && N.eqb f' f) eqn:Ek; cbn [andb].
+    + destruct sub; cbn [del_client_ref lf_subs lf_binds Bool.eqb]; rewrite A, B; auto.
+    + rewrite A, B. auto.
+  - intros x Hx. apply filter_In in Hx. apply (ci_feat _ _ C). apply Hx.
+  - intros x Hx. apply filter_In in Hx. apply Hold. apply Hx.
+Qed.
+
 (* ================================================================ discovery reply / notification: helpers *)
 Lemma owners_pres0 s s1 cr : addr_pres s s1 -> CInv s cr ->
   forall x, In x cr -> exists pe d, find_peer s1 (c_ski x) = Some pe /\ p_addr pe = Some d /\ fa_dev (c_addr x) = Some d.
@@ -990,4 +1036,34 @@ Proof.
       by (cbn [step]; destruct (find_lfeat s e (Some f)) as [lf|]; [destruct (assoc_N fn (lf_data lf))|]; reflexivity).
     rewrite Hst. split; [exact C | reflexivity].
   - (* Resolve *) split; [|reflexivity]. apply (CInv_same s); try assumption; [reflexivity | apply addr_pres_refl].
+  - (* LocalUnsubscribe *)
+    split; [|reflexivity]. cbn [fst cref set_accounts]. cbn [step] in *. unfold local_unrequest in *.
+    assert (Hs : CInv s (drop_ref true e f r [] (cref m))) by (rewrite drop_ref_nil; exact C).
+    destruct (find_lfeat s e (Some f)) as [lf|] eqn:Elf; [|exact Hs].
+    destruct (fa_dev r) as [d|] eqn:Edev; [|exact Hs].
+    destruct (peer_by_addr s d) as [pe|] eqn:Ea; [|exact Hs].
+    cbn [fst snd calls_to flat_map app map] in *.
+    unfold peer_by_addr in Ea. apply find_some in Ea. destruct Ea as [Hin Hadd]. apply eqb_optN_eq in Hadd.
+    pose proof (find_peer_of_In s pe (ci_peers _ _ C) Hin) as Ep.
+    apply (CInv_del_ref s _ (cref m) e f true r (p_ski pe)); try assumption.
+    + reflexivity.
+    + intros x Hx Er. apply eqb_faddr_eq in Er.
+      pose proof (ref_of_conn s (cref m) (p_ski pe) pe d x C Ep Hadd Hx) as H. rewrite Er, Edev, eqb_optN_refl in H.
+      symmetry in H. apply N.eqb_eq in H. exact H.
+    + apply (ci_owner _ _ C).
+  - (* LocalUnbind *)
+    split; [|reflexivity]. cbn [fst cref set_accounts]. cbn [step] in *. unfold local_unrequest in *.
+    assert (Hs : CInv s (drop_ref false e f r [] (cref m))) by (rewrite drop_ref_nil; exact C).
+    destruct (find_lfeat s e (Some f)) as [lf|] eqn:Elf; [|exact Hs].
+    destruct (fa_dev r) as [d|] eqn:Edev; [|exact Hs].
+    destruct (peer_by_addr s d) as [pe|] eqn:Ea; [|exact Hs].
+    cbn [fst snd calls_to flat_map app map] in *.
+    unfold peer_by_addr in Ea. apply find_some in Ea. destruct Ea as [Hin Hadd]. apply eqb_optN_eq in Hadd.
+    pose proof (find_peer_of_In s pe (ci_peers _ _ C) Hin) as Ep.
+    apply (CInv_del_ref s _ (cref m) e f false r (p_ski pe)); try assumption.
+    + reflexivity.
+    + intros x Hx Er. apply eqb_faddr_eq in Er.
+      pose proof (ref_of_conn s (cref m) (p_ski pe) pe d x C Ep Hadd Hx) as H. rewrite Er, Edev, eqb_optN_refl in H.
+      symmetry in H. apply N.eqb_eq in H. exact H.
+    + apply (ci_owner _ _ C).
 Qed.
